@@ -1,18 +1,21 @@
 """C06 - scoring and least-squares refinement kernels match their mathematical definition."""
-from verif.units import CUnit
+from verif.units import CUnit, BoundedUnit
 import contracts  # noqa
 
-LEVEL = "proof"
+LEVEL = "other"
 WALL_MS = 60000
 TRUSTED = ["f2py marshalling of (ubi, gv, tol) to the C prototypes (array shapes from the F2PY_WRAPPER blocks)"]
 ASSUMPTIONS = ["|ubi.g| <= 2^51 for every peak (domain of the MAGIC rounding idiom), no NaN/Inf in ubi, gv, tol"]
 EXPLANATION = ("score / score_and_refine / refine_assigned / inverse3x3 / verify_rounding are verified function by function against "
                "spec functions written from the property text: count of peaks with drlv2 < tol^2, R = sum g h^T, H = sum h h^T as "
                "recursive sums (loop invariants), ubi' = inverse(R.inverse(H)) by the adjugate formula, unchanged input when a "
-               "determinant vanishes.")
+               "determinant vanishes. Bounded (not counted as proved): the python references indexing.calc_drlv2 / indexing.refine and the f2py "
+               "wrappers of score / score_and_refine / refine_assigned against the same specification on simulated data (0 to all reflections, junk "
+               "vectors, three tolerances, singular normal equations).")
 
 
 def units(ctx):
     keys = ["closest.c:conv_double_to_int_safe", "closest.c:inverse3x3", "closest.c:verify_rounding", "closest.c:score",
             "closest.c:score_and_refine", "closest.c:refine_assigned"]
-    return [CUnit(k) for k in keys]
+    from contracts import py_score
+    return [CUnit(k) for k in keys] + [BoundedUnit("python-references-and-wrappers", py_score.bounded, "12 (thorough 80) simulated cases")]
